@@ -286,6 +286,11 @@ func runQueryWire(c *Ctx, pr *PropertyRun, prop, pkg string) {
 		}
 	}
 
+	// ---- conformant documents the own client never writes
+	if prop == "C08" {
+		c08WireDecode(c, pr)
+	}
+
 	// ---- hrefs are decoded paths
 	urlParseRule(c, pr, prop, nil)
 
